@@ -48,6 +48,22 @@ def _not(v):
     return v ^ True
 
 
+def _or(a, b):
+    if concrete_bool(a):
+        return True if a else b
+    if concrete_bool(b):
+        return True if b else a
+    return a | b
+
+
+def _cell_eq(v, other):
+    if hasattr(v, "_vf_eq"):
+        return v._vf_eq(other)
+    if isnan(v) or (isinstance(other, float) and other != other):
+        return False
+    return v == other
+
+
 def _and(a, b):
     if concrete_bool(a):
         return b if a else False
@@ -306,6 +322,32 @@ class DataArray:
         except TypeError:
             return False
 
+    def transpose(self, *dims):
+        dims = tuple(dims) if dims else tuple(reversed(self.dims))
+        if sorted(dims) != sorted(self.dims):
+            raise ValueError("%r must be a permuted list of %r" % (dims, self.dims))
+        idx = [self.dims.index(d) for d in dims]
+        cells = {tuple(k[i] for i in idx): v for k, v in self.cells.items()}
+        return DataArray(dims, self.coords_, cells, self.name, self.attrs)
+
+    def _zip(self, other, f):
+        if isinstance(other, DataArray):
+            if other.dims != self.dims:
+                raise ValueError("elementwise operation on differently shaped arrays is not modelled")
+            return DataArray(self.dims, self.coords_, {k: f(v, other.cells[k]) for k, v in self.cells.items()}, self.name)
+        return self._map(lambda v: f(v, other))
+
+    def __eq__(self, other):
+        return self._zip(other, _cell_eq)
+
+    __hash__ = object.__hash__
+
+    def __or__(self, other):
+        return self._zip(other, _or)
+
+    def __and__(self, other):
+        return self._zip(other, _and)
+
     def identical(self, other):
         return (isinstance(other, DataArray) and self.dims == other.dims and self.coords_ == other.coords_
                 and self.name == other.name and all(_same_value(v, other.cells[k]) for k, v in self.cells.items()))
@@ -422,9 +464,16 @@ class Dataset:
 
     # -- internals
     def _dim_sizes(self):
+        # xarray orders Dataset.dims by first appearance over the data variables, then the coordinates
+        # (Dataset.indexes / .coords keep the order of the coordinates)
         out = {}
+        for da in self._vars.values():
+            for d in da.dims:
+                if d not in out and d in self._coords:
+                    out[d] = len(self._coords[d])
         for d, labs in self._coords.items():
-            out[d] = len(labs)
+            if d not in out:
+                out[d] = len(labs)
         return out
 
     def _add_var(self, name, spec):
@@ -573,6 +622,27 @@ class Dataset:
 
     def isnull(self):
         return self._map(isnull)
+
+    def _zip(self, other, f):
+        out = self.copy(deep=True)
+        if isinstance(other, Dataset):
+            out._vars = {k: v._zip(other._vars[k], f) for k, v in self._vars.items()}
+        else:
+            out._vars = {k: v._zip(other, f) for k, v in self._vars.items()}
+        return out
+
+    def __eq__(self, other):
+        if isinstance(other, (Dataset, float, int)):
+            return self._zip(other, _cell_eq)
+        return NotImplemented
+
+    __hash__ = object.__hash__
+
+    def __or__(self, other):
+        return self._zip(other, _or)
+
+    def __and__(self, other):
+        return self._zip(other, _and)
 
     def __invert__(self):
         return self._map(_not)
